@@ -11,7 +11,7 @@ from .. import lib, brewlib
 from . import c15
 
 PROP = "C08"
-RULE = ("per dataset (PSM table whose peptides come from a generated FASTA with subset / shared-peptide structures and "
+RULE = ("per dataset (PSM table whose peptides come from a generated FASTA with subset / shared-peptide structures, fragments contained in two non-nested proteins, and "
         "decoys): the full analysis read_pin -> read_fasta -> brew (real PercolatorModel, fixed seed) -> assign_confidence "
         "with proteins is run in fresh interpreters under PYTHONHASHSEED in {0, 1, 2, random} x max_workers in {1, 4}, "
         "half of the datasets carry a string-valued filename column in the spectrum key; twice in each process, and the returned models are fed back in every permutation (k! for k<=4 folds; reversed, rotated and two random orders for 10 folds). Compared "
@@ -30,7 +30,7 @@ def gen(ctx):
     rng = ctx.sub("c08")
     nds = 6 if ctx.thorough else 2
     for k in range(nds):
-        fasta, tp, dp = c15.gen_fasta(rng, "mirror", wide=True)
+        fasta, tp, dp = c15.gen_fasta(rng, "mirror", wide=True, trios=3)
         fc = {"fn": "picked", "fasta": fasta, "fasta_args": dict(c15.FASTA_ARGS), "rows": [], "seed": 1, "ties": False}
         P = c15._proteins(fc)
         allp = list(P.peptide_map.items()) + list(P.shared_peptides.items())
